@@ -163,7 +163,15 @@ def run_eval(op, key, pool, args, ctx, tmpdir, rep=0):
                 return None
             rng_ = refmodel.approx_range(pool.specs[key], 1e-3, 1 - op["alpha"] / 5) if key in pool.specs else [(0, 12), (0, 25)]
             lim = [(0.0, float(r[1])) for r in rng_]
-            c = virocon.HighestDensityContour(model, op["alpha"], limits=lim, deltas=[l[1] / 25 for l in lim])
+            deltas_ = [l[1] / 25 for l in lim]
+            # limits / deltas in the forms callers own: list of tuples, list of lists, ndarray - none may be written to
+            form = seed % 3
+            lim_arg = [tuple(l) for l in lim] if form == 0 else ([list(l) for l in lim] if form == 1 else np.array(lim, dtype=float))
+            del_arg = list(deltas_) if form != 2 else np.array(deltas_, dtype=float)
+            lim_before, del_before = copy.deepcopy(lim_arg), copy.deepcopy(del_arg)
+            c = virocon.HighestDensityContour(model, op["alpha"], limits=lim_arg, deltas=del_arg)
+            if repr(lim_arg) != repr(lim_before) or repr(del_arg) != repr(del_before):
+                ctx.violation("input_mutated:hdc", f"limits {lim_before!r} -> {lim_arg!r}; deltas {del_before!r} -> {del_arg!r}")
             res = np.asarray(c.coordinates, dtype=float) if isinstance(c.coordinates, np.ndarray) else None
         elif name in ("ds", "and", "or"):
             if n_dim != 2 or is_t:
